@@ -28,3 +28,10 @@ package config
 //@ func Config.CheckInboundTrafficPolicy
 //@   modifies nothing
 //@   ensures default-deny [C06]: allowed == (has(c.inPolicy, policykey(protocol, dstPort)) && (c.inPolicy[policykey(protocol, dstPort)] == nil || has(c.inPolicy[policykey(protocol, dstPort)], src)))
+
+// A policy entry admits everyone (nil source set) exactly when the service was declared public; an existing entry is
+// never overwritten.
+//@ func Config.addInPolicyKey
+//@   requires c != nil && c.inPolicy != nil
+//@   ensures public-exactly-when-declared [C06]: result == nil ==> has(c.inPolicy, policyKey) && ((c.inPolicy[policyKey] == nil) == public)
+//@   ensures no-overwrite [C06]: old(has(c.inPolicy, policyKey)) ==> result != nil
